@@ -52,6 +52,8 @@ impl Parser {
             }
         }
 
+        // the newline after the last field (no trailing comma) is an inserted semicolon
+        self.match_token(&TokenKind::Semicolon);
         self.consume(&TokenKind::RBrace, "}")?;
         let end_span = self.previous().span;
 
